@@ -2,6 +2,7 @@
 import io
 import itertools
 import os
+import re
 import pathlib
 import shutil
 import tempfile
@@ -82,7 +83,7 @@ def run(ctx):
     names.update(names_probe(rng, 4000 if ctx.thorough else 800))
     names.update(names_unicode(rng, 6000 if ctx.thorough else 1500))
     names = sorted(names)
-    ops = {"check": [], "sanitize": [], "stored": [], "canon": [], "parts": [], "out": []}
+    ops = {"check": [], "sanitize": [], "sanitize_pathobj": [], "stored": [], "canon": [], "parts": [], "out": []}
     outs = {k: [] for k in ops}
     oracle_lines = []
     verdicts = []
@@ -128,6 +129,23 @@ def run(ctx):
             if _climbs(stored2):
                 ctx.fail("C16:stored_escapes", "writestr/writef accept the name and store a member name that climbs above the archive root",
                          {"arcname": n, "stored": stored2})
+        # the same helper handed a path OBJECT (write(Path(...)) / writeall() with arcname=None): the object's text is what
+        # is sanitised, drive-like first components included
+        try:
+            pobj = pathlib.Path(n) if n else None
+            if pobj is not None:
+                try:
+                    r2 = zobj._sanitize_archive_arcname(pobj)
+                    ps2 = "ok " + enc(r2)
+                    if r2.startswith("/") or re.match(r"^[a-zA-Z]:", r2):
+                        ctx.fail("C16:stored_absolute", "write()/writeall() given the path object %r would store the member name %r: absolute (drive or root) on the systems that read it"
+                                 % (str(pobj), r2), {"source_path_object": str(pobj), "stored": r2})
+                except py7zr.exceptions.AbsolutePathError:
+                    ps2 = "err"
+                ops["sanitize_pathobj"].append("path.sanitize " + enc(str(pobj)))
+                outs["sanitize_pathobj"].append(ps2)
+        except (ValueError, TypeError):
+            pass
         ops["canon"].append("path.canon " + enc(n))
         outs["canon"].append(enc(str(helpers.canonical_path(pathlib.Path(n)))))
         pp = pathlib.PurePosixPath(n)
